@@ -71,6 +71,7 @@ def run_case(ctx, case, stats):
     if "faithful" not in case["clauses"]:
         return
     flat = obj.reshape(-1)
+    texts = []
     exp = [idx for row in case["rows"] for idx in row]
     if c["mode"] == 1:
         got = latex_numbers(s)
@@ -88,12 +89,21 @@ def run_case(ctx, case, stats):
             for f in body.split(","):
                 if NUM.match(f):
                     got.append(float(f))
+                    texts.append(f.strip())
                 else:
                     got.append(None)
+                    texts.append(None)
     stats["elements"] += len(exp)
     if len(got) != len(exp):
         ctx.violation("faithful:count", {"case": c}, expected=len(exp), observed={"fields": len(got), "text": s[:400]})
         return
+    # 'rounded to the requested number of decimals': a field of a float array shows exactly nd decimals
+    if c["mode"] == 0 and c["dtype"] == "float" and c["nd"] > 0:
+        for pos, tx in enumerate(texts):
+            if tx is not None and "." in tx and "e" not in tx.lower() and len(tx.split(".")[1]) != c["nd"]:
+                ctx.violation("faithful:decimals", {"case": c, "flat_index": exp[pos]}, expected=c["nd"],
+                              observed={"field": tx, "text": s[:400]})
+                return
     half = 0.5 * 10.0 ** (-c["nd"])
     for pos, idx in enumerate(exp):
         x = float(flat[idx])
